@@ -8,7 +8,8 @@
  *                     produce the same bytes, so server randoms / session ids / ticket IVs stay distinct
  *   time           -> constant wall clock inside the validity period of /verif/pki (certificate dates)
  *   psLockMutex    -> optional seeded yield/sleep BEFORE the acquire, then the real function
- *   psUnlockMutex  -> the real function, then an optional seeded yield/sleep AFTER the release
+ *   psUnlockMutex  -> the real function, then an optional seeded yield/sleep AFTER the release (with its own, higher
+ *                     probability knob: the instant after a release is the interesting one)
  *
  * psGetTime / psDiffMsecs are NOT wrapped: the real monotonic clock is thread-safe and nothing in the check
  * depends on elapsed time (cache lifetimes are hours).
@@ -26,6 +27,7 @@ static __thread uint64_t tl_ent_ctr = 0;
 static __thread uint64_t tl_yield_state = 0;   /* 0 = yield injection off for this thread */
 static __thread uint32_t tl_yield_per_1024 = 0;
 static __thread uint32_t tl_sleep_per_1024 = 0;
+static __thread uint32_t tl_unlock_sleep_per_1024 = 0;   /* extra: sleep right after a mutex release */
 static __thread uint64_t tl_yields = 0;        /* statistics, read by the owning thread only */
 static __thread uint64_t tl_lock_calls = 0;
 
@@ -45,8 +47,10 @@ void c20_entropy_seed(uint64_t run_seed, uint32_t thread_index)
 }
 
 /* Called by each thread for itself; yield_seed 0 switches injection off. */
-void c20_yield_config(uint64_t yield_seed, uint32_t thread_index, uint32_t yield_per_1024, uint32_t sleep_per_1024)
+void c20_yield_config(uint64_t yield_seed, uint32_t thread_index, uint32_t yield_per_1024, uint32_t sleep_per_1024,
+    uint32_t unlock_sleep_per_1024)
 {
+    tl_unlock_sleep_per_1024 = unlock_sleep_per_1024;
     tl_yield_state = yield_seed ? (c20_mix(yield_seed) ^ c20_mix(0xABCD0000ULL + thread_index)) | 1 : 0;
     tl_yield_per_1024 = yield_per_1024;
     tl_sleep_per_1024 = sleep_per_1024;
@@ -122,7 +126,25 @@ void __wrap_psLockMutex(psMutex_t *mutex)
 
 void __wrap_psUnlockMutex(psMutex_t *mutex)
 {
+    uint64_t x;
     __real_psUnlockMutex(mutex);
+    /* The window right after a release is where "flag written after unlock" style bugs live: let another thread
+       take the lock before this one continues. */
+    x = tl_yield_state;
+    if (x != 0 && tl_unlock_sleep_per_1024 != 0)
+    {
+        x ^= x << 13; x ^= x >> 7; x ^= x << 17;
+        tl_yield_state = x;
+        if (((uint32_t) (x >> 20) & 1023) < tl_unlock_sleep_per_1024)
+        {
+            struct timespec ts;
+            ts.tv_sec = 0;
+            ts.tv_nsec = 20000 + (long) ((x >> 33) % 380000);   /* 20 .. 400 microseconds */
+            tl_yields++;
+            nanosleep(&ts, NULL);
+            return;
+        }
+    }
     c20_maybe_yield();
 }
 #endif
